@@ -104,3 +104,39 @@ CHECKS = {
     },
 }
 NOT_APPLICABLE = {}
+
+
+# Families added after the red-team waves / the anchor statement-coverage listing (DESIGN sections 9 and 11); the bounds of
+# every family are reported by each run in evidence/<id>.json (coverage.families).
+ADDED = {
+    "C01": "Added: N colliding with the field count (19..21), non-default row labels, rows whose optional fields are all missing, values at the end of the float32 range, holes punched into the live list after construction.",
+    "C02": "Added: exponent spellings, quote characters, text outside ASCII, blocks read by name, label lines ordered by their '#n' numbers with trailing descriptions, tables with reversed / gapped row labels.",
+    "C03": "Added: single deviations of the row labels on import; export and round trip from tables with gapped / reversed row labels.",
+    "C04": "Added: tables with reversed / rotated column order, lists whose shifts are all zero under update_coord.",
+    "C05": "Now 16 operation instances (shift with inplace=False, flips with persistent caller-owned dimension tables, unsorted tables) from four initial lists (default labels; permuted and gapped labels; tomogram 2 only; reordered columns); get_coordinates per tomogram.",
+    "C06": "Added: array memory layouts, per-point colour values, get_axis_from_rotation and angle_between_vectors (incl. parallel / antiparallel directions).",
+    "C07": "Added: map memory layouts and files, diameters equal to lattice distances, repeated row labels, coincident particles, threshold 0.0 and sigma thresholds, dense clusters of 33..100 (thorough 400) particles, angle lists with > 32 767 rows.",
+    "C08": "Now 35 merge-free operation instances and 7 merges; object numbers after merge_and_drop_duplicates; intersection against second lists of 1..40 (thorough 200) ids.",
+    "C09": "Added: caller's arguments unchanged, reference points sharing coordinates, (centre, box) option interaction, all-zero masks, a particle beyond the y edge of a mask, particles exactly at the radius (integer offsets with integer norms).",
+    "C11": "Added: one axis of 17..47 voxels on every axis position, array memory layouts, invert_contrast (values, file, file type), a double just below an integer.",
+    "C12": "Added: box (13,8,8), cutoffs to the long-axis Nyquist, array memory layouts, exact .5 quotients of box*px/res judged with round-half-even.",
+    "C13": "Added: every radius on 48-boxes, re-call after the caller edited a result, odd explicit mask sizes, documented default radius / height / radii / centre, array memory layouts for the algebra.",
+    "C14": "Added: re-call after in-place edits, row-label and memory-layout variants, enforce_shape windows and pad, maps that are non-zero at their faces under generic rotations (no density without source), grey-valued templates (even edges) at generic orientations.",
+    "C15": "Added: caller-owned argument objects shared across calls, merge of 1..13 (thorough 25) numbered part files, one centre definition across all crops of an image.",
+    "C16": "Added: sizes 13 / 17, array memory layouts, int16 stacks (arrays and files, within one count), csv / text dose files, the written file holds the result.",
+    "C17": "Added: long decimals, acquisition-order wedge lists, repeated tilt, array index lists, gctf columns in another order, csv dose tables, mdoc.get_tilt_angles.",
+    "C18": "Added: row-label variants, subtomogram numbers that restart per tomogram, the same list objects moved in place and analysed again.",
+    "C19": "Added: row-label variants, a second tomogram holding a single particle.",
+    "C20": "Added: 42 targets in the ball at every insertion position, array memory layouts, two lattice sheets of 10..300 points per surface (sparse and dense) in three labelling orders and both directions.",
+}
+NOTE_FIX = {
+    "C16": ("int16 stacks excluded; ", ""),
+    "C20": ("Scenes of at most 3+3 points; ", "Palette scenes of at most 3+3 points, lattice sheets up to 300+307 points; "),
+    "C14": ("non-right-angle poses and odd templates in place_object are not judged.", "odd templates in place_object are not judged (windows are quantified over even boxes only); at non-right-angle poses the stamp is judged against the thresholded output of cryomap.rotate."),
+    "C07": ("groups containing a score tie are exempt from the model clause.", "groups containing a score tie are exempt from the model clause; a sigma threshold is judged only where both usual definitions of the standard deviation select the same voxels."),
+}
+for _k, _t in ADDED.items():
+    CHECKS[_k]["text"] = CHECKS[_k]["text"].rstrip() + " " + _t
+for _k, (_a, _b) in NOTE_FIX.items():
+    assert _a in CHECKS[_k]["note"], _k
+    CHECKS[_k]["note"] = CHECKS[_k]["note"].replace(_a, _b)
